@@ -167,8 +167,10 @@ func decodeUnicode(s *Stream, p unsafe.Pointer) (unsafe.Pointer, error) {
 	unicodeLen := int64(len(unicode))
 	s.buf = append(append(s.buf[:s.cursor-1], unicode...), s.buf[s.cursor+offset:]...)
 	unicodeOrgLen := offset - 1
-	s.length = s.length - (backSlashAndULen + (unicodeOrgLen - unicodeLen))
+	removed := backSlashAndULen + (unicodeOrgLen - unicodeLen)
+	s.length = s.length - removed
 	s.cursor = s.cursor - backSlashAndULen + unicodeLen
+	s.offset += removed // the window shrank: keep offset+cursor equal to the input position
 	return pp, nil
 }
 
@@ -206,6 +208,7 @@ RETRY:
 	s.buf = append(s.buf[:s.cursor-1], s.buf[s.cursor:]...)
 	s.length--
 	s.cursor--
+	s.offset++ // the window shrank: keep offset+cursor equal to the input position
 	p = s.bufptr()
 	return p, nil
 }
@@ -257,6 +260,7 @@ func stringBytes(s *Stream) ([]byte, error) {
 			_, _, p = s.stat()
 			cursor += runeErrBytesLen
 			s.length += runeErrBytesLen
+			s.offset -= runeErrBytesLen - 1 // the window grew: keep offset+cursor equal to the input position
 			continue
 		case nul:
 			s.cursor = cursor
@@ -288,6 +292,7 @@ func stringBytes(s *Stream) ([]byte, error) {
 				s.buf = append(append(append([]byte{}, s.buf[:cursor]...), runeErrBytes...), s.buf[cursor+1:]...)
 				cursor += runeErrBytesLen
 				s.length += runeErrBytesLen
+				s.offset -= runeErrBytesLen - 1 // the window grew: keep offset+cursor equal to the input position
 				_, _, p = s.stat()
 			} else {
 				cursor += int64(size)
